@@ -444,12 +444,15 @@ class Program:
     structs: List[Struct] = dfield(default_factory=list)
     props: Tuple[str, ...] = ()
     note: str = ""
+    decl_override: Optional[str] = None
 
     @property
     def mod(self):
         return f"d_{self.pid}"
 
     def decl_text(self, feature_cfg=False):
+        if self.decl_override is not None:
+            return self.decl_override
         parts = []
         for s in self.structs:
             c = s.const_items()
